@@ -660,6 +660,10 @@ func runC05(w *mon.Worker) {
 		w.Case("survivor", map[string]any{"state": state, "retry": retry, "concurrent": concurrent}, func(c *mon.Case) { c05Case(c, state, retry, concurrent) })
 	}
 	mon.ClearProb()
+	for i := 0; i < w.Share(w.Scale(64, 2000)); i++ {
+		state := i%2 == 0
+		w.Case("retry-swap", map[string]any{"state": state}, func(c *mon.Case) { c05RetrySwapCase(c, state) })
+	}
 }
 
 func c05Case(c *mon.Case, state, retry, concurrent bool) {
@@ -1791,4 +1795,45 @@ func c14ConstructorsCase(c *mon.Case) {
 		c.Violate("machine", "exit-callback-count", "%s: the two exit callbacks saw %v and %v, want [%v <nil>] each", names[kind], g1, g2, errFirst)
 	}
 	clear()
+}
+
+// c05RetrySwapCase: the routine failed and a retry is pending (40 ms backoff); the container's context is replaced
+// (restart=false) while the old context stays alive. Whatever runs afterwards runs under the new context.
+func c05RetrySwapCase(c *mon.Case, state bool) {
+	behave := func(n, gen int) (bool, int, error, bool) {
+		if n == 0 {
+			return false, 0, fmt.Errorf("error-inst-0"), false
+		}
+		return true, 0, nil, false
+	}
+	bo := 40 * time.Millisecond
+	w := newRtWorldBackoff(c, state, false, true, behave, bo)
+	cx := &rtCtxs{}
+	defer cx.cancelAll()
+	ctxA, tagA := cx.fresh()
+	w.setContext("d", ctxA, false, fmt.Sprint("new#", tagA))
+	w.setGen("d", 1)
+	if !mon.Quiesce(5 * time.Second) {
+		c.Inconclusive("no quiescence after the failure")
+		return
+	}
+	if ins := w.instances(); len(ins) != 1 || ins[0].exit.Load() == 0 {
+		c.Inconclusive("the first instance did not fail in time")
+		return
+	}
+	ctxB, tagB := cx.fresh()
+	w.setContext("d", ctxB, false, fmt.Sprint("new#", tagB))
+	c.Count("retry_swap_templates", 1)
+	c.NonTrivial()
+	if !mon.SettleTimers(bo, 3, 3*bo, 10*time.Second) {
+		c.Inconclusive("no quiescence after the backoff")
+		return
+	}
+	for _, in := range w.instances() {
+		if in.exit.Load() == 0 && in.ctx.Err() == nil && in.tag != tagB {
+			c.Violate("survivor", w.kind()+"-survivor-wrong-context", "the routine failed under context #%d; the context was replaced by #%d (restart=false) inside the backoff interval while #%d stayed alive; at quiescence instance #%d is live under context #%d", tagA, tagB, tagA, in.n, in.tag)
+		}
+	}
+	call, _ := w.clearContext("d")
+	w.checkSuperseded(call, "ClearContext")
 }
